@@ -42,7 +42,7 @@ META = dict(
     need=["vec_binary", "vec_reflected", "vec_unary", "vec_compare", "vec_reduce", "vec_norm", "vec_dot",
           "vec_where", "vec_struct", "vec_forest", "map_smap", "map_lmap", "map_invalid_specs",
           "map_nondefault_axes"],
-    quick=dict(cases=640, workers=8, budget_s=60),
+    quick=dict(cases=480, workers=8, budget_s=60),
     thorough=dict(cases=16000, workers=16, budget_s=700),
     design_ref="DESIGN.md §5 C33",
     level_text="differential testing on generated pytrees / axis specifications; exploration, not exhaustive",
